@@ -147,6 +147,12 @@ def qconfig(cls, name, sel):
     qc[name] = body("name")
   if sel in ("class", "both"):
     qc[qcls] = body("class")
+  if sel == "partial_name_plus_class":
+    # the name entry configures only the weight quantizer; the class entry is complete: the name entry wins as
+    # a whole, so the layer gets NO bias / activation quantizer from the class entry
+    wkey = "depthwise_quantizer" if cls == "DepthwiseConv2D" else ("average_quantizer" if "Pooling" in cls else "kernel_quantizer")
+    qc[name] = {wkey: "ONLY#name"} if cls not in ("Activation", "BatchNormalization") else body("name")
+    qc[qcls] = body("class")
   if sel == "partial_class":
     qc[qcls] = {"bias_quantizer": "only-bias"} if cls not in ("Activation", "BatchNormalization") else {}
   return qc
@@ -220,7 +226,7 @@ def cases(tier):
   classes = WEIGHT + ["DepthwiseConv2D", "SimpleRNN", "LSTM", "GRU", "Activation", "BatchNormalization",
                       "AveragePooling2D", "GlobalAveragePooling2D", "Flatten"]
   for cls in classes:
-    for sel in ("none", "name", "class", "both", "partial_class"):
+    for sel in ("none", "name", "class", "both", "partial_class", "partial_name_plus_class"):
       for ub in (True, False):
         if cls in ("Activation", "BatchNormalization", "AveragePooling2D", "GlobalAveragePooling2D", "Flatten") and not ub:
           continue
